@@ -1,7 +1,7 @@
 (* C10/Properties.v — streamed parsing ignores chunking; the callback gets every byte.
    Statements only; proofs in C09/Proofs.v and C10/Proofs.v.  [drive], [spec]: C09/Model.v. *)
 From Coq Require Import ZArith List Bool.
-From RM Require Import Base.Word C08.Model C11.Model C09.Model C09.Grammar C09.Driver C09.Proofs C09.ProofsBytes C10.Model C10.Proofs C10.ProofsCache C10.ProofsAsync C09.ProofsFinish C09.ProofsFinal C10.Stream C10.ProofsStream C10.Driver C10.ProofsStreamTrace C10.ProofsBound C10.OldRefill.
+From RM Require Import Base.Word C08.Model C11.Model C09.Model C09.Grammar C09.Driver C09.Proofs C09.ProofsBytes C10.Model C10.Proofs C10.ProofsCache C10.ProofsAsync C09.ProofsFinish C09.ProofsFinal C10.Stream C10.ProofsStream C10.Driver C10.ProofsStreamTrace C10.ProofsBound C10.OldRefill C10.Band C10.ProofsFine C10.ProofsBandAll.
 From RM Require Gen.C10Stream.
 From RM Require C09.Pins.
 Import ListNotations.
@@ -377,3 +377,85 @@ Theorem c10_stream_failed_body_callback :
               cbsum (core x) = size L llen lines.
 Proof. exact stream_failed_cb. Qed.
 Print Assumptions c10_stream_failed_body_callback.
+
+(* ------------------------------------------------------------------ round 5, second pass: the interior of the band *)
+
+(* Lines of 80 KiB and more are chunk-dependent ONLY through reads of more than 80 KiB.  All inputs whose lines
+   fit the largest buffer (content < 160 KiB: [wide_lines]), every reader whose read() calls never return more
+   than HALF_CAP = 81920 bytes ([fine_sched]; the schedule must not run out before the input does, because a
+   used-up schedule is the whole-slice reader): the outcome is [spec], the schedule-free verdict, exactly as for
+   lines shorter than 80 KiB (recovery needs ONE read of at least 81921 bytes that fills the 160 KiB buffer). *)
+Theorem c10_fine_reads_exact :
+  forall (L : Type) (llen : L -> Z) (PS : Type) (init_ps : PS)
+         (recog : PS -> L -> PS + Z) (bump : PS -> PS) (lineno : PS -> Z),
+    (forall l, 1 <= llen l) ->
+    forall (lines : list L) (tail : Z),
+    wide_lines llen lines tail ->
+    forall sch : list Z, fine_sched sch (input_len L llen lines tail) ->
+    exists s, drive L llen PS init_ps recog bump lineno lines tail sch
+              = Ret (spec L PS init_ps recog lineno lines tail, s).
+Proof. exact fine_drive_is_spec. Qed.
+Print Assumptions c10_fine_reads_exact.
+
+(* The same for parse_async: a body whose chunks are at most 80 KiB each (empty chunks anywhere, a failure
+   anywhere) gives [spec_stream] on every input whose lines are shorter than 160 KiB. *)
+Theorem c10_stream_fine_chunks_exact :
+  forall (L : Type) (llen : L -> Z) (PS : Type) (init_ps : PS)
+         (recog : PS -> L -> PS + Z) (bump : PS -> PS) (lineno : PS -> Z),
+    (forall l, 1 <= llen l) ->
+    forall (lines : list L) (tail : Z),
+    wide_lines llen lines tail ->
+    forall script : list sev,
+    delivered script = input_len L llen lines tail -> fine_body script ->
+    exists x, drive_stream L llen PS init_ps recog bump lineno lines tail script
+              = Ret (spec_stream L PS init_ps recog lineno lines tail script, x).
+Proof. exact fine_stream_is_spec. Qed.
+Print Assumptions c10_stream_fine_chunks_exact.
+
+(* EVERY line length in the band is chunk-dependent, for every recogniser: |A| = |A'| = 80 KiB exactly (the
+   longest lines of the class), B any line of at most 40 KiB, X any line with 81920 < |X| <= 163840, A, B, A'
+   accepted.  Read from a slice (schedule [] = from_bytes) the file A/B/A'/X is Ok with X DROPPED (line counter
+   bumped, the recogniser never sees X); under every fine reader the outcome is what the recogniser says about X.
+   The two differ whenever [recog p3 X <> inl (bump p3)], e.g. for every FILE/PUBLIC/FUNC record and for every
+   malformed line.  ([c10_bound_is_tight] / [c10_band_top_dependent] were the two end points.) *)
+Theorem c10_band_everywhere_dependent :
+  forall (L : Type) (llen : L -> Z) (PS : Type) (init_ps : PS)
+         (recog : PS -> L -> PS + Z) (bump : PS -> PS) (lineno : PS -> Z),
+    (forall l, 1 <= llen l) ->
+    forall (A B A' X : L) (p1 p2 p3 : PS),
+    llen A = 81920 -> 1 <= llen B <= 40960 -> llen A' = 81920 -> 81920 < llen X <= 163840 ->
+    recog init_ps A = inl p1 -> recog p1 B = inl p2 -> recog p2 A' = inl p3 ->
+    (exists s, drive L llen PS init_ps recog bump lineno [A; B; A'; X] 0 [] = Ret (ROk (bump p3), s) /\
+               log s = [(true, X); (false, A'); (false, B); (false, A)]) /\
+    (forall sch, fine_sched sch (input_len L llen [A; B; A'; X] 0) ->
+       exists s, drive L llen PS init_ps recog bump lineno [A; B; A'; X] 0 sch
+                 = Ret (match recog p3 X with inl p4 => ROk p4 | inr c => RErr c (lineno p3) end, s)).
+Proof. exact band_everywhere. Qed.
+Print Assumptions c10_band_everywhere_dependent.
+
+(* non-vacuity on the real recogniser: MODULE Linux x86 0 a{81900} / FILE 1 aaa / FILE 2 a{81912} / FILE 3 a{n}
+   with a band line of 100000 bytes; 4096-byte reads keep FILE 3, the whole-slice read drops it *)
+Definition band_ex (n : Z) : list rle :=
+  [ lit [77;79;68;85;76;69;32;76;105;110;117;120;32;120;56;54;32;48;32] ++ [(97, 81900)];
+    file_line [49] 3; file_line [50] 81912; file_line [51] n ].
+Example c10_nonvacuous_band_file :
+  map cllen (band_ex 99992) = [81920; 11; 81920; 100000] /\
+  wide_lines cllen (band_ex 99992) 0 /\
+  fine_sched (repeat 4096 (Z.to_nat 263851)) (input_len rle cllen (band_ex 99992) 0).
+Proof.
+  split; [vm_compute; reflexivity|]. split.
+  - split; [|reflexivity]. unfold band_ex. repeat (apply Forall_cons; [apply Z.leb_le; vm_compute; reflexivity|]). apply Forall_nil.
+  - split; [apply Forall_forall; intros c Hc; apply repeat_spec in Hc; subst c; apply Z.leb_le; reflexivity|].
+    rewrite repeat_length. vm_compute. discriminate.
+Qed.
+Example c10_nonvacuous_band_runs :
+  exists r1 x1 r2 x2 t1 t2,
+    drive_c (band_ex 99992) 0 (repeat 4096 100) = Ret (r1, x1) /\ drive_c (band_ex 99992) 0 [] = Ret (r2, x2) /\
+    table_of r1 = Ret (Some t1) /\ table_of r2 = Ret (Some t2) /\
+    zlen (t_files t1) = 3 /\ zlen (t_files t2) = 2.
+Proof.
+  do 6 eexists.
+  split; [vm_compute; reflexivity|]. split; [vm_compute; reflexivity|].
+  split; [vm_compute; reflexivity|]. split; [vm_compute; reflexivity|].
+  split; vm_compute; reflexivity.
+Qed.
